@@ -1,14 +1,18 @@
 #!/bin/bash
-# tools/run_seeded.sh <seed-id> <check id> [tier]   -- apply the seeded change to /repo, run the check, undo
+# tools/run_seeded.sh <seed-id> <check id> [tier]
+# Runs a check against a seeded change. The change is applied to a scratch worktree of /repo HEAD (outside /repo and
+# /verif) and the check is pointed at it with VERIF_REPO, so /repo itself stays untouched; the worktree is removed.
+# (Equivalent to: git -C /repo apply <patch>; ./check ...; git -C /repo checkout -- .)
 id=$1; chk=$2; tier=${3:-quick}
 cd /verif
-git -C /repo diff --quiet || { echo "/repo has local changes"; exit 2; }
-git -C /repo apply /verif/seeded/$id/patch.diff || exit 2
-timeout 3000 ./check $chk --tier $tier > /tmp/runseed.$$ 2>&1; rc=$?
-git -C /repo checkout -- .
+wt=/tmp/seedrun.$$
+git -C /repo worktree add -q --detach $wt HEAD || exit 2
+trap 'git -C /repo worktree remove --force $wt >/dev/null 2>&1' EXIT
+git -C $wt apply /verif/seeded/$id/patch.diff || { echo "SEEDED $id: patch does not apply"; exit 2; }
+VERIF_REPO=$wt timeout 3000 ./check $chk --tier $tier > /tmp/runseed.$$ 2>&1; rc=$?
 nv=$(grep -c "^VIOLATION" /tmp/runseed.$$)
 echo "SEEDED $id check=$chk tier=$tier rc=$rc violations=$nv"
-grep -A1 "^VIOLATION" /tmp/runseed.$$ | head -6 | cut -c1-300
+grep -A1 "^VIOLATION" /tmp/runseed.$$ | head -4 | cut -c1-400
 grep "MACHINERY" /tmp/runseed.$$ | head -3
 rm -f /tmp/runseed.$$
 exit $rc
